@@ -260,6 +260,40 @@ M("C18", "version-error-not-caught", DISC, "        except DiscoverError:\n     
 M("C18", "dedupe-set-after-parse", DISC, "        self._discovered_ips.add(ip)\n\n        _LOGGER.debug(\"Discovery response from %s: %s\", ip, data.hex())", "        _LOGGER.debug(\"Discovery response from %s: %s\", ip, data.hex())")
 M("C18", "only-valueerror-caught", DISC, "        except (IndexError, KeyError, ValueError) as e:", "        except ValueError as e:")
 
+# ---- C19
+M("C19", "match-startswith", CLOUD, '            if token["udpId"] == udpid:', '            if udpid.startswith(token["udpId"]):')
+M("C19", "match-substring", CLOUD, '            if token["udpId"] == udpid:', '            if udpid[:-1] in token["udpId"]:')
+M("C19", "return-first-entry", CLOUD, '            if token["udpId"] == udpid:', '            if token["udpId"]:')
+M("C19", "sign-unsorted", CLOUD, "query = unquote_plus(urlencode(sorted(data.items())))", "query = unquote_plus(urlencode(list(data.items())))")
+M("C19", "sign-without-path", CLOUD, "            msg = path + query + self.APP_KEY\n\n            sign = hashlib.sha256(msg.encode(\"ASCII\"))", "            msg = query + self.APP_KEY\n\n            sign = hashlib.sha256(msg.encode(\"ASCII\"))")
+M("C19", "sign-not-unquoted", CLOUD, "query = unquote_plus(urlencode(sorted(data.items())))", "query = urlencode(sorted(data.items()))")
+M("C19", "password-without-login-id", CLOUD, "            login_hash = login_id + m1.hexdigest() + self.APP_KEY\n            m2 = hashlib.sha256(login_hash.encode(\"ASCII\"))\n\n            return m2.hexdigest()\n", "            login_hash = m1.hexdigest() + self.APP_KEY\n            m2 = hashlib.sha256(login_hash.encode(\"ASCII\"))\n\n            return m2.hexdigest()\n")
+M("C19", "session-id-not-stored", CLOUD, '        self._session_id = response["sessionId"]', '        self._session_id = self._session_id or ""')
+M("C19", "retry-one-too-many", CLOUD, "                    if retries > 1:\n                        _LOGGER.warning(\"Request to %s timed out.\", url)", "                    if retries > 0:\n                        _LOGGER.warning(\"Request to %s timed out.\", url)")
+M("C19", "http-errors-retried", CLOUD, "                except httpx.HTTPError as e:\n                    raise CloudError(f\"HTTP request failed: {e}\") from e", "                except httpx.HTTPError as e:\n                    if retries > 1:\n                        retries -= 1\n                        continue\n                    raise CloudError(f\"HTTP request failed: {e}\") from e")
+M("C19", "only-little-endian", DISC, '        for endian in ["little", "big"]:', '        for endian in ["little"]:')
+M("C19", "api-error-ignored", CLOUD, "        raise ApiError(body[\"msg\"], code=response_code)\n\n    async def _api_request(self, endpoint: str, body: dict[str, Any]) -> Optional[dict]:\n        \"\"\"Make a request to the cloud and return the results.\"\"\"\n\n        # Sign the contents and add it to the body", "        return body.get(\"result\", {\"tokenlist\": [], \"loginId\": \"x\", \"sessionId\": \"\"})\n\n    async def _api_request(self, endpoint: str, body: dict[str, Any]) -> Optional[dict]:\n        \"\"\"Make a request to the cloud and return the results.\"\"\"\n\n        # Sign the contents and add it to the body")
+M("C19", "udpid-xor-wrong-halves", LAN, "            return strxor(mv_hash[:16], mv_hash[16:])", "            return strxor(mv_hash[:16], mv_hash[:16])")
+M("C19", "stamp-date-only", CLOUD, 'return datetime.now(timezone.utc).strftime("%Y%m%d%H%M%S")', 'return datetime.now(timezone.utc).strftime("%Y%m%d")')
+M("C19", "timeout-exhaustion-returns-none", CLOUD, '                        raise CloudError("No response from server.") from e', '                        return None')
+
+# ---- C20
+M("C20", "enum-name-case-sensitive", CLI, "new_properties[name] = attr_type[value.upper()]", "new_properties[name] = attr_type[value]")
+M("C20", "bool-only-capital-true", CLI, "new_properties[name] = convert(value.capitalize(), bool)", "new_properties[name] = convert(value, bool)")
+M("C20", "enum-int-only", CLI, "            if isinstance(value, (int, float)):\n                # Try to convert number to enum", "            if not isinstance(value, (int, float)):\n                _LOGGER.error(\"names not accepted\")\n                exit(1)\n            if isinstance(value, (int, float)):\n                # Try to convert number to enum")
+M("C20", "raw-fan-ints-rejected", CLI, "                    if attr_type == AC.FanSpeed:\n                        new_properties[name] = int(value)\n                    else:", "                    if False:\n                        new_properties[name] = int(value)\n                    else:")
+M("C20", "display-toggled-unconditionally", CLI, "        if display != device.display_on:", "        if True:")
+M("C20", "validation-after-connect", CLI, "    # Parse each setting, checking if the property exists and the supplied value is valid\n    new_properties = {}", "    # Parse each setting, checking if the property exists and the supplied value is valid\n    device = await _connect(args)\n    await device.refresh()\n    new_properties = {}")
+M("C20", "exit-1-to-return", CLI, "            _LOGGER.error(\"'%s' is not a valid device property.\", name)\n            exit(1)", "            _LOGGER.error(\"'%s' is not a valid device property.\", name)\n            return")
+M("C20", "refresh-skipped-before-apply", CLI, "    _LOGGER.info(\"Querying device state.\")\n    await device.refresh()\n\n    if not device.online:\n        _LOGGER.error(\"Device is not online.\")\n        exit(1)\n\n    if args.capabilities:", "    if args.capabilities:")
+M("C20", "read-only-not-rejected", CLI, "        if name != KEY_DISPLAY_ON and prop.fset is None:\n            _LOGGER.error(\"'%s' property is not writable.\", name)\n            exit(1)", "        if name != KEY_DISPLAY_ON and prop.fset is None:\n            _LOGGER.error(\"'%s' property is not writable.\", name)\n            continue")
+M("C20", "float-truncated", CLI, "            new_properties[name] = convert(value, attr_type)", "            new_properties[name] = attr_type(int(convert(value, float)))")
+M("C20", "display-inverted", CLI, "        if display != device.display_on:", "        if display == device.display_on:")
+M("C20", "bad-enum-value-defaults", CLI, "                        _LOGGER.error(\"Value '%d' is not a valid %s\",\n                                      value, attr_type.__qualname__)\n                        exit(1)", "                        new_properties[name] = attr_type.DEFAULT")
+M("C20", "only-last-setting-applied", CLI, "    for prop, value in new_properties.items():\n        _LOGGER.info(\"Setting '%s' to %r.\", prop, value)\n        setattr(device, prop, value)", "    for prop, value in list(new_properties.items())[-1:]:\n        _LOGGER.info(\"Setting '%s' to %r.\", prop, value)\n        setattr(device, prop, value)")
+M("C20", "port-6445", CLI, "device = AC(ip=args.host, port=6444, device_id=args.device_id)", "device = AC(ip=args.host, port=6445, device_id=args.device_id)")
+M("C20", "bad-bool-treated-as-false", CLI, "        except (ValueError, SyntaxError):\n            _LOGGER.error(\"Value '%s' is not a valid %s\",\n                          v, t.__qualname__)\n            exit(1)", "        except (ValueError, SyntaxError):\n            return t()")
+
 
 def apply_mutant(src_root: str, file: str, old: str, new: str) -> None:
     p = os.path.join(src_root, file)
